@@ -982,22 +982,67 @@ def _hook_outcomes(sc):
     return {w["name"]: (w.get("hooks") or {}) for w in sc["watchers"]}
 
 
+def _parse_set_hook(v):
+    """`"harness.simhooks.o_<letters>[,flag]"` as Watcher.set_opt reads it, or None when it is anything else"""
+    if not isinstance(v, str):
+        return None
+    parts = v.split(",")
+    name = parts[0]
+    pre = "harness.simhooks.o_"
+    if not name.startswith(pre) or not name[len(pre):] or any(c not in "tfr" for c in name[len(pre):]):
+        return None
+    ignore = False
+    if len(parts) == 2:
+        t = parts[1].lower().strip()
+        if t in ("yes", "true", "on", "1"):
+            ignore = True
+        elif t in ("no", "false", "off", "0"):
+            ignore = False
+        else:
+            return None
+    return {"out": [{"t": "true", "f": "false", "r": "raise"}[c] for c in name[len(pre):]], "ignore": ignore}
+
+
 def c14(sc, V, counters=None):
     f = []
     hooks = _hook_outcomes(sc)
     calls = {}
+    replaced = set()          # (watcher, hook) a `set … hooks` request has touched: the scripted outcomes of the scenario's
+    #                           configuration no longer say what that hook does (the model / code comparison still does)
     for s in V:
         if s.before.blocked:
             break
         failed_start = {}
+        op = getattr(s, "op", None)
+        if op and op[0] == "req" and isinstance(op[1], dict) and str(op[1].get("command", "")).lower() == "set":
+            pr = op[1].get("properties")
+            if isinstance(pr, dict) and isinstance(pr.get("name"), str) and isinstance(pr.get("options"), dict):
+                tgt = [n for n in hooks if n.lower() == pr["name"].lower()]
+                refused = any(l[0] == "rep" and l[3] == "error" for l in s.lines)
+                for k_, v_ in pr["options"].items():
+                    items = ([(k_.split(".")[-1], v_)] if k_.startswith("hooks.") else
+                             list(v_.items()) if k_ == "hooks" and isinstance(v_, dict) else [])
+                    for n in tgt:
+                        for hn, hv in items:
+                            spec = None if refused else _parse_set_hook(hv)
+                            if spec is None:
+                                replaced.add((n, hn))          # refused part-way or not understood: outcomes unknown
+                            else:
+                                # installed: the scripted outcomes and the flag of the request are what C14 speaks about
+                                # from now on (the call counter of the watcher object goes on)
+                                hooks[n] = dict(hooks[n])
+                                hooks[n][hn] = spec
+                                replaced.discard((n, hn))
         for i, l in enumerate(s.lines):
             if l[0] == "ev" and l[2] in ("hook_success", "hook_failure"):
                 wn = next((n for n in hooks if res_name(n) == l[1]), None)
-                if wn is None or l[4] not in hooks[wn]:
+                if wn is None:
                     continue
-                spec = hooks[wn][l[4]]
                 k = calls.get((wn, l[4]), 0)
                 calls[(wn, l[4])] = k + 1
+                if l[4] not in hooks[wn] or (wn, l[4]) in replaced:
+                    continue
+                spec = hooks[wn][l[4]]
                 outs = spec.get("out", ["true"])
                 o = outs[k % len(outs)]
                 if (o == "raise") != (l[2] == "hook_failure"):
